@@ -478,24 +478,47 @@ example : accepts WorkbookSpec (.obj [(.s "version", .flt (.fin 2 1)), (.s "name
 
 /-! ## every member of an accepted section becomes a specification -/
 
-/-- Tie A: the code no longer skips a dict-valued item named `version` (repo patch 27,
-    `if k != 'version' or isinstance(v, dict)`); `specListMembers` models that condition. -/
-theorem spec_list_skip_tied : specListSkipsDictVersion = false := by decide
+/-- Tie A: `BaseSpecList.__init__` skips the key `version` (`specListMembers`) and
+    `WorkflowSpec.validate_schema` rejects a task with that name (`tasksNameCheck`, repo patch 27). -/
+theorem version_key_tied : specListSkipsVersion = true ∧ taskNamedVersionRejected = true := by decide
 
-/-- "An accepted definition re-read … is the same definition (tasks, …)": every entry of an accepted
-    `tasks` section is instantiated by `TaskSpecList` — also a task named `version` (every value of an
-    accepted section is a dict).  Before repo patch 27 this was false (`…_full_fails`, witness
-    corpus/C14/31-task-named-version-dropped.json, now a regression). -/
-theorem tasks_all_instantiated {kvs : List (Key × JVal)} (h : accepts P_tasks (.obj kvs) = true) :
-    ∀ kv ∈ kvs, kv ∈ specListMembers kvs := by
+theorem hasKey_of_mem {k : String} {v : JVal} {kvs : List (Key × JVal)} (h : (Key.s k, v) ∈ kvs) :
+    hasKey k kvs = true := by
+  unfold hasKey lookup
+  induction kvs with
+  | nil => cases h
+  | cons x xs ih =>
+    obtain ⟨k', v'⟩ := x
+    by_cases hk : k' = Key.s k
+    · simp [lookupKey, hk]
+    · rcases List.mem_cons.mp h with he | hm
+      · cases he; exact absurd rfl hk
+      · simpa [lookupKey, hk] using ih hm
+
+/-- "An accepted definition re-read … is the same definition (tasks, …)": every entry of the `tasks`
+    section of an ACCEPTED workflow (schema + the explicit name check of `WorkflowSpec.validate_schema`)
+    is instantiated by `TaskSpecList`.  Before repo patch 27 there was no name check and the statement
+    was false for a task named `version` (`…_full_fails`, witness
+    corpus/C14/31-task-named-version-dropped.json, now a regression: the definition is rejected). -/
+theorem tasks_all_instantiated {kvs : List (Key × JVal)} (_h : accepts P_tasks (.obj kvs) = true)
+    (hc : tasksNameCheck kvs = true) : ∀ kv ∈ kvs, kv ∈ specListMembers kvs := by
   intro kv hkv
-  obtain ⟨kvs', he, _, hall⟩ := frag_P_tasks h
-  cases he
-  obtain ⟨_, ms, hv, _, _⟩ := hall kv hkv
-  simp [specListMembers, hkv, hv, JVal.isObj]
+  simp only [specListMembers, List.mem_filter, hkv, true_and, bne_iff_ne, ne_eq]
+  intro he
+  obtain ⟨k, v⟩ := kv
+  simp only at he
+  subst he
+  simp [tasksNameCheck, hasKey_of_mem hkv] at hc
 
-example : accepts P_tasks (.obj [(.s "version", .obj [(.s "action", .str "std.noop")]),
-    (.s "t-2", .obj [(.s "join", .int 1)])]) = true := by decide
+example : accepts P_tasks (.obj [(.s "t1", .obj [(.s "action", .str "std.noop")]),
+    (.s "t-2", .obj [(.s "join", .int 1)])]) = true ∧
+    tasksNameCheck [(.s "t1", .obj [(.s "action", .str "std.noop")]), (.s "t-2", .obj [(.s "join", .int 1)])] = true := by
+  decide
+
+/-- the name check is necessary: the schema alone accepts a task named `version`. -/
+theorem tasks_schema_accepts_version :
+    accepts P_tasks (.obj [(.s "version", .obj [(.s "action", .str "std.noop")])]) = true ∧
+    tasksNameCheck [(.s "version", .obj [(.s "action", .str "std.noop")])] = false := by decide
 
 /-- the `actions` / `workflows` section of a workbook: the only entry `BaseSpecList.__init__` skips is
     the marker, and in an accepted section an entry named `version` IS the marker ("2.0" / 2.0 / 2):
